@@ -47,7 +47,7 @@ func selfArgs(out string, stub bool) []string {
 
 func checkC19(c *Ctx) error {
 	w := c.W
-	c.Rule = "self-hosting fixpoint replay: generation g regenerates internal/gontainer/gontainer.go with the tool built from generation g-1 (g=0: the checked-in file), compared byte for byte modulo the `// gontainer version:` line; generation 0 runs an unstamped build, generations 1 and 2 are rebuilt with the Makefile's ldflags stamps (clean, then dirty tree); regeneration happens in place like `make self-compile`; the final tree is also built with release stamps (.goreleaser.yaml ldflags, versions with and without the v prefix, other major/minor numbers, pre-release and build metadata) and each such binary regenerates once; the configuration is also reached through a linked directory, per-file links, copies, absolute paths and redundant path elements; each (generation, repetition) comparison is one case, distinct by (generation, repetition)"
+	c.Rule = "self-hosting fixpoint replay: generation g regenerates internal/gontainer/gontainer.go with the tool built from generation g-1 (g=0: the checked-in file), compared byte for byte modulo the `// gontainer version:` line; generation 0 runs an unstamped build, generations 1 and 2 are rebuilt with the Makefile's ldflags stamps (clean, then dirty tree), generation 1 from the Makefile's file list `main.go`, generation 2 from the package; regeneration happens in place like `make self-compile`; the final tree is also built with release stamps (.goreleaser.yaml ldflags, versions with and without the v prefix, other major/minor numbers, pre-release and build metadata) and each such binary regenerates once; the configuration is also reached through a linked directory, per-file links, copies, absolute paths and redundant path elements; each (generation, repetition) comparison is one case, distinct by (generation, repetition)"
 	c.Assumptions = []string{"Makefile self-compile arguments are the intended self configuration", "go build of the scratch copy is faithful to /repo's working tree"}
 	gens := 3
 	reps := c.Pick(2, 10)
@@ -101,7 +101,19 @@ func checkC19(c *Ctx) error {
 		case 1:
 			ld = "-X main.date=2026-01-02T03:04:05Z -X main.commit=0123456789abcdef0123456789abcdef01234567 -X main.version=dev-main -X main.isGitDirty=true -X main.builtBy=make4.3"
 		}
-		if err := w.BuildTool(nb, ld, "", false); err != nil {
+		// generation 1 is built exactly like the Makefile's build target (`go build … main.go`, a file list), generation 2 like
+		// `go install` / goreleaser (the package): both are "the tool built from the tree"
+		target := "."
+		if g == 0 {
+			target = "main.go"
+			if err := w.BuildToolTarget(nb, ld, "", false, target); err != nil {
+				c.Set("makefile_style_build", "failed, fell back to the package build: "+firstLines(err.Error(), 3))
+				target = "."
+			} else {
+				c.Set("makefile_style_build", "ok (go build main.go)")
+			}
+		}
+		if err := w.BuildToolTarget(nb, ld, "", false, target); err != nil {
 			c.Violate(fmt.Sprintf("gen%d-does-not-build", g+1), "the tool does not build with its regenerated container:\n"+err.Error(), map[string]string{"regenerated.go": string(last)})
 			return nil
 		}
